@@ -11,7 +11,9 @@ use std::alloc::Layout;
 use std::panic::{catch_unwind, AssertUnwindSafe};
 
 fn ctor_case<const M: usize>(rep: &mut Report, valid: bool) {
-    let cases: [(&str, Box<dyn Fn() -> bool>); 5] = [
+    let cases: [(&str, Box<dyn Fn() -> bool>); 7] = [
+        ("with_min_align_and_capacity(1<<20)", Box::new(|| { let _b = Bump::<M>::with_min_align_and_capacity(1 << 20); true })),
+        ("try_with_min_align_and_capacity(1<<20)", Box::new(|| Bump::<M>::try_with_min_align_and_capacity(1 << 20).is_ok())),
         ("with_min_align", Box::new(|| { let _b = Bump::<M>::with_min_align(); true })),
         ("with_min_align_and_capacity(0)", Box::new(|| { let _b = Bump::<M>::with_min_align_and_capacity(0); true })),
         ("with_min_align_and_capacity(100)", Box::new(|| { let _b = Bump::<M>::with_min_align_and_capacity(100); true })),
@@ -19,7 +21,33 @@ fn ctor_case<const M: usize>(rep: &mut Report, valid: bool) {
         ("try_with_min_align_and_capacity(100)", Box::new(|| Bump::<M>::try_with_min_align_and_capacity(100).is_ok())),
     ];
     for (name, f) in cases.iter() {
+        halloc::op_begin();
         let r = catch_unwind(AssertUnwindSafe(|| f()));
+        let evs = halloc::op_end();
+        // C03: whether the constructor is refused or the arena it built has been dropped again,
+        // every block it obtained has been given back, with the layout it was requested with
+        let mut live: Vec<(usize, usize, usize)> = Vec::new();
+        for e in evs.iter().filter(|e| e.cand) {
+            if e.kind == halloc::EV_ALLOC && e.res == halloc::RES_OK {
+                live.push((e.ptr, e.size, e.align));
+            } else if e.kind == halloc::EV_DEALLOC {
+                match live.iter().position(|b| b.0 == e.ptr) {
+                    Some(i) => {
+                        let b = live.remove(i);
+                        if (b.1, b.2) != (e.size, e.align) {
+                            rep.violate("C03", "C03/dealloc/layout-differs-from-request", format!("constructor {} M={}: requested ({}, {}), returned with ({}, {})", name, M, b.1, b.2, e.size, e.align));
+                        }
+                    }
+                    None => {}
+                }
+            }
+        }
+        rep.add("c03.constructor_blocks_followed", evs.iter().filter(|e| e.cand && e.kind == halloc::EV_ALLOC && e.res == halloc::RES_OK).count() as u64);
+        rep.bump("c03.constructor_calls_checked_for_leaks");
+        if !live.is_empty() {
+            let what = if r.is_err() { "refused-constructor-keeps-memory" } else { "memory-still-held-after-drop" };
+            rep.violate("C03", format!("C03/ctor/{}", what), format!("{} M={}: {} block(s) obtained from the global allocator and never given back, first (size {}, align {})", name, M, live.len(), live[0].1, live[0].2));
+        }
         rep.evaluations += 1;
         rep.distinct.insert(crate::report::fnv(M as u64, name.len() as u64 * 131 + name.as_bytes()[0] as u64 + name.as_bytes()[name.len() - 2] as u64 * 7));
         match (valid, r) {
